@@ -260,7 +260,10 @@ class Recorder:
             R.cur_es["ub_search"] = np.array(ost["ub_search"], dtype=float).reshape(-1)
             try:
                 r = o_escall(self_, *a, **k)
-                R.cur_es["ret"] = (np.array(r[0], dtype=float).reshape(-1), float(np.asarray(r[1]).reshape(-1)[0]))
+                if np.asarray(r[0]).size == 0:        # the empty search set (no candidate survived)
+                    R.cur_es["ret"] = "empty"
+                else:
+                    R.cur_es["ret"] = (np.array(r[0], dtype=float).reshape(-1), float(np.asarray(r[1]).reshape(-1)[0]))
                 return r
             except Exception as ex:
                 R.cur_es["exc"] = type(ex).__name__
@@ -301,7 +304,7 @@ class Recorder:
 
         def h_call(self_, u, lb, ub, fl, gp, optim_state):
             us, z = o_hcall(self_, u, lb, ub, fl, gp, optim_state)
-            if R.widen_rng is not None:
+            if R.widen_rng is not None and np.asarray(us).size > 0:
                 rr = R.widen_rng
                 k = rr.choice([1, 2, 3, 5])
                 us = np.atleast_2d(us)
@@ -431,10 +434,14 @@ def es_monitor(c):
     allr = np.vstack([g[1] for g in done]) if done else np.zeros((0, 1))
     if c["exc"] is not None:
         if c["exc"] == "IndexError" and any(g[1].shape[0] == 0 for g in gens):
-            return "stuck", None          # empty generation: the crash of C09, not a wrong proposal
+            return "stuck", None          # pre-692d1d7 behaviour on an empty generation: a crash (C09), not a wrong proposal
         return "bad", f"ESSearch.__call__ raised {c['exc']} although every generation had survivors"
     if len(gens) != c["iters"]:
         return "bad", f"{len(gens)} generations recorded, n_search_iter = {c['iters']}"
+    if isinstance(c["ret"], str):         # the empty search set
+        if all(g[1].shape[0] > 0 for g in gens):
+            return "bad", "no point was proposed although every generation had survivors"
+        return ("empty" if allz.size == 0 else "dropped"), None
     u0, z0 = c["ret"]
     if allz.size == 0:
         return "bad", "a point was returned although no candidate survived"
@@ -456,11 +463,13 @@ def es_case(c):
     if c["exc"] not in (None, "IndexError"):
         return None
     gl = clist([clist([f"({cqlist(r)}, {cq(float(zz))})" for r, zz in zip(g[1].tolist(), g[2].tolist())]) for g in done])
-    if c["exc"] is None:
-        u0, z0 = c["ret"]
-        exp = f"(Some ({cqlist(u0.tolist())}, {cq(z0)}))"
+    if c["exc"] is not None:
+        exp = "ESStuck"
+    elif isinstance(c["ret"], str):
+        exp = "ESEmpty"
     else:
-        exp = "None"
+        u0, z0 = c["ret"]
+        exp = f"(ESPoint {cqlist(u0.tolist())} {cq(z0)})"
     return f"(({cnat(c['lamb'])}, {gl}), {exp})"
 
 
@@ -500,7 +509,7 @@ def step_case(s):
             f"{clist([cqlist(e.tolist()) for e in s['evals']])})")
 
 
-ES_TY = "(nat * list (list (list Q * Q))) * option (list Q * Q)"
+ES_TY = "(nat * list (list (list Q * Q))) * es_out (list Q)"
 ES_OK = "es_case_ok"
 STEP_TY = "(list (list Q) * list Q) * list (list Q)"
 STEP_OK = "search_case_ok"
